@@ -285,13 +285,13 @@ Lemma restore_cons : forall l ls st,
   restore_lines (l :: ls) st =
   if is_dirline l then
     match starts_with s_lineat l with
-    | None => Err AssertionError
+    | None => Err CDefError
     | Some num =>
         match undec num with
         | None => Err Unmodelled
         | Some i =>
             match nth_error st (N.to_nat i) with
-            | None => Err IndexError
+            | None => Err CDefError
             | Some d => match restore_lines ls st with Ok out => Ok (d :: out) | Err e => Err e end
             end
         end
@@ -353,4 +353,29 @@ Proof.
   rewrite (split_join out Hne A).
   pose proof (restore_stash _ 0 [] out st E eq_refl) as R. simpl in R.
   rewrite R. now rewrite join_split.
+Qed.
+
+(* ------------------------------------------------------------------ \r \f \v *)
+
+Lemma other_ws_space : forall c, other_ws c = true -> is_space c = true /\ is_word c = false.
+Proof. intros c. unfold other_ws, is_space, is_word, is_alpha_, is_digit, in_range. lia. Qed.
+
+Lemma gwords_aux_normalize : forall s cur,
+  gwords_aux is_space cur (normalize_ws s) = gwords_aux is_space cur s.
+Proof.
+  induction s as [|c s IH]; intros cur; [reflexivity|].
+  unfold normalize_ws in *. simpl. destruct (other_ws c) eqn:O.
+  - destruct (other_ws_space c O) as [Hs Hw]. rewrite Hw, Hs.
+    change (is_word SP) with false. change (is_space SP) with true. cbv iota. now rewrite IH.
+  - destruct (is_word c); now rewrite IH.
+Qed.
+
+(* turning \r, \f, \v into blanks does not change the word sequence, and leaves no such character *)
+Theorem normalize_keeps_words : forall s, words (normalize_ws s) = words s.
+Proof. intros s. apply gwords_aux_normalize. Qed.
+
+Theorem normalize_removes : forall s, forallb (fun c => negb (other_ws c)) (normalize_ws s) = true.
+Proof.
+  induction s as [|c s IH]; [reflexivity|]. unfold normalize_ws in *. simpl.
+  destruct (other_ws c) eqn:O; [|rewrite O]; simpl; assumption.
 Qed.
